@@ -765,6 +765,8 @@ def run(chk: Check) -> None:
     from rules.c08 import d5_rearm
     d5_rearm(chk, "C15-D1b")
     d1c_total_handlers(chk, cl)
+    from rules.c14 import d2c_templates
+    d2c_templates(chk, cl, "C15-D1d")
     d2_partial(chk, cl)
     d2_types(chk, cl)
     chk.notes.append("closure: {} functions".format(len(cl)))
